@@ -452,6 +452,11 @@ class SimulationAlgorithm(BaseSimulationAlgorithm):
         """
 
         self._check_logistic_model(model)
+        if len(self.features) != model.dimension:
+            raise LeaspyAlgoInputError(
+                f"The model has {model.dimension} features, "
+                f"but {len(self.features)} feature names were given: {self.features}"
+            )
         self.model = model
 
     def _generate_visit_ages(self, df: pd.DataFrame) -> dict:
